@@ -17,3 +17,9 @@ for v in res['violations']:
     print('   ', {k:x for k,x in v['model'].items() if x not in (0,0.0)})
     if '--post' in sys.argv:
         r=nat.call(rp['request']); print('   native:', json.dumps(r.get('recv',{}).get(sys.argv[sys.argv.index('--post')+1]) if isinstance(r.get('recv'),dict) else r)[:1500], r.get('msg'))
+print({k: res['summary'][k] for k in ('solver_time_s','feasibility_queries','feasibility_unknown','feasibility_assumed_without_query','feasibility_time_s','paths','merges','wall_s')})
+for o in res['obligations']:
+    if o['time_s']>1: print('  slow:', o['name'][:80], o['status'], o['time_s'])
+import engine as _e
+if _e.DEBUG_FORKS:
+    for k,v in sorted(_e.DEBUG_FORKS.items(), key=lambda kv:-kv[1])[:25]: print(v, k)
